@@ -295,6 +295,18 @@ func runSchedule(t *testing.T, tw *trace.Writer, c *scase, idx int, res *vh.Resu
 			ip := taken[0]
 			taken = taken[1:]
 			var inst *gostatsd.Instance
+			if result == "err" { // the lookup failed; the cache keeps serving an older instance for the source
+				ci.mu.Lock()
+				ci.known[ip] = instanceFor(string(ip), true)
+				ci.mu.Unlock()
+				bareMu.Lock()
+				bare[string(ip)] = false
+				bareMu.Unlock()
+				tw.Emit(map[string]any{"ev": "answer", "src": string(ip), "res": "neg"})
+				res.Hit("failed-lookup-cache-keeps-instance")
+				ci.info <- gostatsd.InstanceInfo{IP: ip, Instance: nil}
+				return true
+			}
 			if result != "neg" {
 				inst = instanceFor(string(ip), result == "pos")
 				bareMu.Lock()
